@@ -78,6 +78,43 @@ func rootsFor(prop, tier string) []Root {
 				add("VH_C13_Str", t, 1200)
 			}
 		}
+	case "C02":
+		big := func(h string, p ...int) {
+			rs = append(rs, Root{Prop: prop, Harness: h, Params: p, MaxDecs: 2000, MaxSteps: 20000000})
+		}
+		big("VH_C02_Grouping", 1, 0)
+		big("VH_C02_Grouping", 2, 0)
+		big("VH_C02_Grouping", 1, 1)
+		big("VH_C02_Grouping", 1, 2)
+		if thorough {
+			big("VH_C02_Grouping", 3, 0)
+			big("VH_C02_Grouping", 2, 1)
+		}
+		for kw := 0; kw < 12; kw++ {
+			add("VH_C02_Category", kw, 0)
+			add("VH_C02_Category", kw, 4)
+		}
+	case "C04":
+		for f := 0; f < 8; f++ {
+			rs = append(rs, Root{Prop: prop, Harness: "VH_C04_Exit", Params: []int{1, f}, MaxDecs: 2000})
+			if thorough || f == 0 || f == 2 || f == 6 {
+				rs = append(rs, Root{Prop: prop, Harness: "VH_C04_Exit", Params: []int{2, f}, MaxDecs: 2000})
+			}
+			if thorough && f != 7 {
+				rs = append(rs, Root{Prop: prop, Harness: "VH_C04_Exit", Params: []int{3, f}, MaxDecs: 3000})
+			}
+		}
+	case "C03":
+		rs = append(rs, Root{Prop: prop, Harness: "VH_C03_Resume", Params: []int{1}, MaxDecs: 2000})
+		rs = append(rs, Root{Prop: prop, Harness: "VH_C03_Resume", Params: []int{2}, MaxDecs: 2000})
+		if thorough {
+			rs = append(rs, Root{Prop: prop, Harness: "VH_C03_Resume", Params: []int{3}, MaxDecs: 3000})
+		}
+		rs = append(rs, Root{Prop: prop, Harness: "VH_C03_Labels", Params: []int{1}, MaxDecs: 2000})
+		rs = append(rs, Root{Prop: prop, Harness: "VH_C03_Labels", Params: []int{2}, MaxDecs: 2000})
+		if thorough {
+			rs = append(rs, Root{Prop: prop, Harness: "VH_C03_Labels", Params: []int{3}, MaxDecs: 2000})
+		}
 	case "C09":
 		for _, t := range []int{1, 2, 3, 4, 5, 7, 8, 9, 10, 11, 12, 13, 14, 15, 16, 17, 18, 19, 245, 247, 248, 249, 250, 251, 252, 253, 254, 255} {
 			add("VH_C09_LenAgree", t)
@@ -125,6 +162,12 @@ func rootsFor(prop, tier string) []Root {
 			}
 		}
 	case "C15":
+		for sh := 0; sh < 2; sh++ {
+			rs = append(rs, Root{Prop: prop, Harness: "VH_C15_Cache", Params: []int{sh}, MaxDecs: 2000})
+		}
+		if thorough {
+			rs = append(rs, Root{Prop: prop, Harness: "VH_C15_Cache", Params: []int{2}, MaxDecs: 2000})
+		}
 		for _, w := range []int{4, 6} {
 			add("VH_C15_TableMap", w, 1, 1, 1, 0)
 			add("VH_C15_TableMap", w, 2, 3, 5, 0)
@@ -235,6 +278,8 @@ func rootsFor(prop, tier string) []Root {
 			add("VH_C19_MariaContains", n)
 		}
 	case "C17":
+		rs = append(rs, Root{Prop: prop, Harness: "VH_C17_Gate", Params: []int{1}, MaxDecs: 2000})
+		rs = append(rs, Root{Prop: prop, Harness: "VH_C17_Gate", Params: []int{2}, MaxDecs: 2000})
 		hi := 64
 		if thorough {
 			hi = 300
